@@ -258,7 +258,7 @@ def generate(path, mod, isa_path, ea_field="f_StepInfo_EA"):
     out.append("\n".join(lines))
     out.append(LEN_AGREES % {"mod": mod})
     out.append(INSTANCE % {"mod": mod})
-    out.append("Print Assumptions C07_contract_%s.\nPrint Assumptions C07_len_%s.\nPrint Assumptions C07_%s.\n" % (mod, mod, mod))
+    out.append("Print Assumptions C07_contract_%s.\nPrint Assumptions C07_len_%s.\nPrint Assumptions C07_partial_%s.\n" % (mod, mod, mod))
     files["C07_%s" % mod] = "\n".join(out)
     return files, {"lemmas": lemmas, "straight": straight, "proved": proved, "unproved": unproved, "skipped": skipped,
                    "needed": sorted(needed), "modes": modes}
@@ -569,8 +569,10 @@ Proof.
   intro a. apply Frame_mem. exact Hfr.
 Qed.
 
-(* C07 for this interpreter: Props/CoupleProps.C07_couple with the abstract CPU instantiated *)
-Theorem C07_%(mod)s : forall ops e0 b s0,
+(* C07 for this interpreter: Props/CoupleProps.C07_couple with the abstract CPU instantiated.
+   _partial: relative to the property's wording ("no TAKEN control transfer") conditional branches that are not
+   taken at run time are not covered -- every branch / jump / call / return opcode is outside [straight] *)
+Theorem C07_partial_%(mod)s : forall ops e0 b s0,
   straightline ops e0 -> buf e0 = Some b -> 0 <= n e0 <= ZList.zlen b ->
   let ef := fst (run ops e0) in
   let bank := address e0 / 65536 in
